@@ -22,9 +22,11 @@ from vf.api import Enumerated, Generated, HarnessError, Violation
 PROPERTY = "C07"
 LEVEL = "exploration"
 RULE = (
-    "exh: every (left operand in {column over rows NULL/0/1, literal 0, literal 1, NULL}) x (value list over {NULL,0,1} of length 0..3) x "
+    "exh: every (left operand in {column over rows NULL/0/1, literal 0, literal 1, NULL, TypeDecorator(+100) column}) x (value list over {NULL,0,1} of length 0..3) x "
     "(in_, not_in, ~in_, ~not_in) x (select, where, having, case) x (inline, bindparam, literal_execute, literal_binds); "
-    "random: 3 nullable int columns + 1 string column, 1-5 rows over {NULL,0,1,2}/{NULL,'a','b',''}; scalar or 1..3-column tuple operand; "
+    "random: 3 nullable int columns + 1 string column + 3 columns typed by value-converting TypeDecorators (int offset with process_bind_param only; "
+    "string prefix with process_bind_param and process_literal_param; string prefix + bind_expression lower()), 1-5 rows; scalar column / bound literal "
+    "(plain or decorator-typed) or 1..3-column tuple operand (decorator columns included); "
     "two lists of length 0..6 with NULLs and duplicates executed one after the other on the same engine (second hits the compiled cache); "
     "emptyset: (dialect) x (scalar / 2-tuple) x (form) x (surrounding context) x (left value NULL/0/1). "
     "Non-trivial: a list is empty, contains NULL, has duplicates, the operand is a tuple or NULL, or the second execution changes length/emptiness; "
@@ -37,6 +39,8 @@ ASSUMPTIONS = [
     "PostgreSQL / MySQL / MariaDB / MSSQL / Oracle are not executed: their empty-set expressions are evaluated by the 3VL interpreter over the "
     "vendor precedence tables in checks/_sqlparse.py (trusted); an empty sub-select is taken to make IN false / NOT IN true (SQL-92 8.4)",
     "raw DBAPI values are read (result processors bypassed)",
+    "TypeDecorator operands: the list must reach the database converted exactly once in every mode (bound, bindparam, literal_execute, literal_binds); the "
+    "reference compares against the converted values the harness computes itself, and the fixture insert is verified against that conversion model first",
 ]
 
 FORMS = ["in", "not_in", "inv_in", "inv_not_in"]
@@ -112,13 +116,76 @@ def ref_sql(form, lhs_sqls, vals, tuple_):
 
 
 # ------------------------------------------------------------------ live execution
-COLS = ["a", "b", "c", "s"]
+COLS = ["a", "b", "c", "s", "d", "u", "w"]
+DECO = ("d", "u", "w")
+
+
+def stored(col, v):
+    """what the database holds / is compared with for Python value v of column col (value-converting TypeDecorators on d, u, w)"""
+    if v is None:
+        return None
+    if col == "d":
+        return v + 100  # OffsetInt.process_bind_param
+    if col == "u":
+        return "p:" + v  # PrefixStr.process_bind_param == process_literal_param
+    if col == "w":
+        return ("P:" + v).lower()  # FoldStr.process_bind_param, then bind_expression lower(...)
+    return v
+
+
+_TYPES = {}
+
+
+def _deco_types(sa):
+    if _TYPES:
+        return _TYPES
+
+    class OffsetInt(sa.types.TypeDecorator):
+        """only process_bind_param: literal rendering must fall back to it"""
+
+        impl = sa.Integer
+        cache_ok = True
+
+        def process_bind_param(self, value, dialect):
+            return None if value is None else value + 100
+
+        def process_result_value(self, value, dialect):
+            return None if value is None else value - 100
+
+    class PrefixStr(sa.types.TypeDecorator):
+        """process_bind_param and process_literal_param both given"""
+
+        impl = sa.String
+        cache_ok = True
+
+        def process_bind_param(self, value, dialect):
+            return None if value is None else "p:" + value
+
+        def process_literal_param(self, value, dialect):
+            return None if value is None else "p:" + value
+
+    class FoldStr(sa.types.TypeDecorator):
+        """value conversion plus a SQL-level bind_expression (the bind_expression_template branch of literal rendering)"""
+
+        impl = sa.String
+        cache_ok = True
+
+        def process_bind_param(self, value, dialect):
+            return None if value is None else "P:" + value
+
+        def bind_expression(self, bindvalue):
+            return sa.func.lower(bindvalue)
+
+    _TYPES.update(d=OffsetInt, u=PrefixStr, w=FoldStr)
+    return _TYPES
 
 
 def _mk(sa):
+    ty = _deco_types(sa)
     md = sa.MetaData()
     t = sa.Table("t", md, sa.Column("id", sa.Integer, primary_key=True), sa.Column("a", sa.Integer), sa.Column("b", sa.Integer),
-                 sa.Column("c", sa.Integer), sa.Column("s", sa.String(10)))
+                 sa.Column("c", sa.Integer), sa.Column("s", sa.String(10)),
+                 sa.Column("d", ty["d"]()), sa.Column("u", ty["u"]()), sa.Column("w", ty["w"]()))
     return md, t
 
 
@@ -127,7 +194,12 @@ def _lhs(sa, t, lhs, literal=False):
     k = lhs[0]
     if k == "col":
         name = lhs[1]
-        return t.c[name], [f"t.{name}"], False, (lambda row: row[name])
+        return t.c[name], [f"t.{name}"], False, (lambda row: stored(name, row.get(name)))
+    if k == "dlit":
+        # bound literal whose type is the value-converting decorator of column lhs[1]
+        name, v = lhs[1], lhs[2]
+        wrap = "lower(%s)" if name == "w" else "%s"
+        return sa.literal(v, _deco_types(sa)[name]()), [wrap % _lit("P:" + v if name == "w" else stored(name, v))], False, (lambda row: stored(name, v))
     if k == "lit":
         v = lhs[1]
         return sa.literal(v, sa.Integer() if isinstance(v, int) else sa.String()), [_lit(v)], False, (lambda row: v)
@@ -140,7 +212,7 @@ def _lhs(sa, t, lhs, literal=False):
         return sa.literal(None, sa.Integer()), ["NULL"], False, (lambda row: None)
     if k == "tuple":
         names = lhs[1]
-        return sa.tuple_(*[t.c[n] for n in names]), [f"t.{n}" for n in names], True, (lambda row: tuple(row[n] for n in names))
+        return sa.tuple_(*[t.c[n] for n in names]), [f"t.{n}" for n in names], True, (lambda row: tuple(stored(n, row.get(n)) for n in names))
     raise HarnessError(f"lhs {lhs!r}")
 
 
@@ -197,6 +269,23 @@ def _execute(conn, stmt, params, mode):
     return rows, None
 
 
+def _deco_cols(lhs):
+    if lhs[0] in ("col", "dlit"):
+        return [lhs[1]] if lhs[1] in DECO else []
+    if lhs[0] == "tuple":
+        return [n for n in lhs[1] if n in DECO]
+    return []
+
+
+def _svals(lhs, vals):
+    """the list as the database must see it (decorator conversion applied per operand column)"""
+    if lhs[0] in ("col", "dlit"):
+        return [stored(lhs[1], v) for v in vals]
+    if lhs[0] == "tuple":
+        return [tuple(stored(n, x) for n, x in zip(lhs[1], v)) for v in vals]
+    return list(vals)
+
+
 def run_live(case, ctx, note=True):
     import sqlite3
 
@@ -226,6 +315,10 @@ def run_live(case, ctx, note=True):
             feats.append("rebind-length-change")
         if len(lists) > 1 and ((len(lists[0]) == 0) != (len(lists[1]) == 0)):
             feats.append("rebind-emptiness-change")
+        if _deco_cols(lhs):
+            feats.append("decorator-type")
+            if mode in ("literal_execute", "literal_binds"):
+                feats.append("decorator-type-literal-mode")
         ctx.note(case, bool(feats), classes=cls + feats)
 
     md, t = _mk(sa)
@@ -234,13 +327,21 @@ def run_live(case, ctx, note=True):
         # confirmed: "(a, b) IN (VALUES SELECT 1, 1 FROM ...)" - excluded by construction, one pinned replay
         ctx.exclude("tuple-empty-list-literal-values-prefix")
         lists = [l if l else [[None] * len(lhs[1])] for l in lists]
+    if lhs[0] in ("col", "dlit") and lhs[1] == "w" and any(len(l) == 0 for l in lists) and not case.get("pinned"):
+        # confirmed: empty list against a type with bind_expression() renders "w IN (lower(SELECT 1 ...))" - excluded by construction, one pinned replay
+        ctx.exclude("bind-expression-type-empty-list")
+        lists = [l if l else [None] for l in lists]
     eng = sautil.mem_engine()
     cap = sautil.Capture(eng)
     try:
         with eng.connect() as conn:
             md.create_all(conn)
-            conn.execute(t.insert(), rows)
+            conn.execute(t.insert(), [{c: r.get(c) for c in ["id"] + COLS} for r in rows])
             raw = conn.connection.dbapi_connection
+            held = raw.execute("SELECT id, d, u, w FROM t ORDER BY id").fetchall()
+            want_held = sorted((r["id"], stored("d", r.get("d")), stored("u", r.get("u")), stored("w", r.get("w"))) for r in rows)
+            if sorted(held) != want_held:
+                raise HarnessError(f"fixture: decorator columns hold {held}, the conversion model says {want_held}")
             for n_exec, vals in enumerate(lists):
                 e, params = _expr(sa, el, form, mode, vals, tuple_)
                 stmt = _stmt(sa, t, e, pos)
@@ -249,11 +350,17 @@ def run_live(case, ctx, note=True):
                     got, lsql = _execute(conn, stmt, params, mode)
                 except (sa.exc.DBAPIError, sqlite3.Error) as err:
                     sent = cap.rows[-1][0] if cap.rows else str(getattr(err, "statement", ""))
-                    kind = "tuple-empty-list-literal-values-prefix" if (tuple_ and not vals and mode in ("literal_execute", "literal_binds")) else f"{form}/{mode}/backend-error"
+                    if tuple_ and not vals and mode in ("literal_execute", "literal_binds"):
+                        kind = "tuple-empty-list-literal-values-prefix"
+                    elif not vals and lhs[0] in ("col", "dlit") and lhs[1] == "w":
+                        kind = "bind-expression-type-empty-list"
+                    else:
+                        kind = f"{form}/{mode}/backend-error"
                     raise Violation(f"C07/{kind}", f"{form} in {pos} position, mode {mode}, values {vals!r}: backend rejects the statement: {err}", observed=str(err)[:500])
                 sent = lsql if lsql is not None else (cap.rows[-1][0] if cap.rows else "?")
-                want_model = {r["id"]: model(form, getter(r), [tuple(v) for v in vals] if tuple_ else vals, tuple_) for r in rows}
-                rs = ref_sql(form, lhs_sqls, vals, tuple_)
+                sv = _svals(lhs, vals)
+                want_model = {r["id"]: model(form, getter(r), sv, tuple_) for r in rows}
+                rs = ref_sql(form, lhs_sqls, sv, tuple_)
                 want_sql = {i: _tv(v) for i, v in raw.execute(f"SELECT id, {rs} FROM t ORDER BY id").fetchall()}
                 if want_sql != want_model:
                     raise HarnessError(f"the two references disagree: {rs} -> {want_sql} vs model {want_model}")
@@ -273,6 +380,8 @@ def run_live(case, ctx, note=True):
                         sig = "null-in-list"
                     else:
                         sig = "values"
+                    if _deco_cols(lhs):
+                        sig = "typedecorator-" + sig
                     if any(getter(r) is None or (tuple_ and None in getter(r)) for r in rows if (obs if isinstance(obs, dict) else {}).get(r["id"]) != (exp if isinstance(exp, dict) else {}).get(r["id"])):
                         sig += "-null-lhs"
                     raise Violation(
@@ -286,8 +395,10 @@ def run_live(case, ctx, note=True):
 
 
 # ------------------------------------------------------------------ exhaustive small domain
-_EXH_ROWS = [{"id": 1, "a": None, "b": 0, "c": 0, "s": None}, {"id": 2, "a": 0, "b": 0, "c": 1, "s": "a"}, {"id": 3, "a": 1, "b": None, "c": 1, "s": "b"}]
-_EXH_LHS = [["col", "a"], ["lit", 0], ["lit", 1], ["null"]]
+_EXH_ROWS = [{"id": 1, "a": None, "b": 0, "c": 0, "s": None, "d": None, "u": None, "w": None},
+             {"id": 2, "a": 0, "b": 0, "c": 1, "s": "a", "d": 0, "u": "a", "w": "a"},
+             {"id": 3, "a": 1, "b": None, "c": 1, "s": "b", "d": 1, "u": "A", "w": "A"}]
+_EXH_LHS = [["col", "a"], ["lit", 0], ["lit", 1], ["null"], ["col", "d"]]
 
 
 def _exh_cases(tier):
@@ -312,9 +423,20 @@ def _random_cases(draw):
     ints = st.sampled_from([None, 0, 1, 2, 0, 1, 2])
     strs = st.sampled_from([None, "a", "b", "", "a", "b"])
     n = draw(st.integers(1, 5))
-    rows = [{"id": i + 1, "a": draw(ints), "b": draw(ints), "c": draw(ints), "s": draw(strs)} for i in range(n)]
-    k = draw(st.integers(0, 9))
-    if k <= 2:
+    dstr = st.sampled_from([None, "a", "A", "b", "a", "A"])
+    rows = [{"id": i + 1, "a": draw(ints), "b": draw(ints), "c": draw(ints), "s": draw(strs), "d": draw(ints), "u": draw(dstr), "w": draw(dstr)}
+            for i in range(n)]
+    vstrat = {"a": ints, "b": ints, "c": ints, "s": strs, "d": ints, "u": dstr, "w": dstr}
+    k = draw(st.integers(0, 12))
+    if k >= 11:
+        # operand typed by a value-converting TypeDecorator (column or bound literal)
+        name = draw(st.sampled_from(list(DECO)))
+        val = vstrat[name]
+        if draw(st.integers(0, 2)) == 0:
+            lhs = ["dlit", name, draw(val.filter(lambda v: v is not None))]
+        else:
+            lhs = ["col", name]
+    elif k <= 2:
         lhs = ["col", draw(st.sampled_from(["a", "b", "c"]))]
         val = ints
     elif k == 3:
@@ -328,9 +450,10 @@ def _random_cases(draw):
         val = ints
     else:
         arity = draw(st.integers(1, 3))
-        names = draw(st.permutations(["a", "b", "c", "s"]))[:arity]
+        # "w" (bind_expression type) stays scalar: bind_expression() is documented as unsupported on tuple types
+        names = draw(st.permutations(["a", "b", "c", "s", "d", "u"]))[:arity]
         lhs = ["tuple", list(names)]
-        val = st.tuples(*[(strs if nm == "s" else ints) for nm in names]).map(list)
+        val = st.tuples(*[vstrat[nm] for nm in names]).map(list)
     lists = [draw(st.lists(val, min_size=0, max_size=6)) for _ in range(2)]
     if draw(st.integers(0, 3)) == 0:
         lists[draw(st.integers(0, 1))] = []
